@@ -20,13 +20,13 @@ ANCHORS = {"funfit.py": [(36, 38)], "rfa.py": [(270, 280), (431, 455), (481, 498
 EXPLANATION = "metamorphic relations between pairs of real runs over a bounded lattice"
 
 ADAPTIVE = ("linada", "expada")
-VMAPS_GENERIC = [(2.0, 0.0), (-1.0, 0.0), (0.5, 3.0), (-3.7, 1.25)]
-VMAPS_EXACT = [(2.0, 0.0), (-1.0, 0.0), (0.25, 0.0), (1.0, 3.0)]
+VMAPS_GENERIC = [(2.0, 0.0), (-1.0, 0.0), (0.5, 3.0), (-3.7, 1.25), (1.0, -2.0)]
+VMAPS_EXACT = [(2.0, 0.0), (-1.0, 0.0), (0.25, 0.0), (1.0, 3.0), (1.0, -2.0)]     # the last one makes the series change sign
 TMAPS = [(2.0, 0.0), (1.0, 5.0), (0.1, -3.3), (8.0, 1.0), (1.0, float(2 ** 20)), (0.5, -float(2 ** 24)), (1.0, float(2 ** 32))]
 
 
 def bounds(tier, seed):
-    return {"m": 6, "y": "{0,1,3}^6" if tier == "quick" else "V^6", "value_maps": 4, "time_maps": len(TMAPS)}
+    return {"m": 6, "y": "{0,1,3}^6" if tier == "quick" else "V^6", "value_maps": 5, "time_maps": len(TMAPS)}
 
 
 def _run(st, x, y, n, p):
@@ -177,7 +177,7 @@ def harnesses(tier, seed):
         # metamorphic maps: on a spanning subset of the lattice for every map, and on the whole lattice
         # for one map selected by position (all maps hit every tie pattern across the enumeration)
         for idx, y in enumerate(lattice):
-            a, b = vmaps[idx % 4]
+            a, b = vmaps[idx % len(vmaps)]
             judge(ctx, check_valuemap, {"strategy": st, "x": x, "y": list(y), "n": n, "p": p, "a": a, "b": b}, calls=2, bulk=True,
                   nontrivial=lambda s: len(set(s[-1])) > 1)
             c, d = TMAPS[(idx // 4) % len(TMAPS)]
